@@ -1,7 +1,11 @@
 (* C18 property theorems: statements only, each closed by `exact`, Print Assumptions beneath.
-   Model A (module trees -> initializer names): coq/Builder/Modules.v, proofs in ModulesProofs.v. *)
-From Coq Require Import String List Bool.
+   Model A (module trees -> initializer names): coq/Builder/Modules.v, proofs in ModulesProofs.v.
+   Model B (value / node names): Naming.v, NamingProofs.v.
+   Model C (trace -> graph -> values): Trace.v, TraceProofs.v (uses the shared OV.Graph evaluator). *)
+From Coq Require Import String List Bool Arith ZArith.
+Require Import OV.Graph.Syntax OV.Graph.Sem OV.Graph.Wf.
 Require Import OV.Builder.Strings OV.Builder.Modules OV.Builder.ModulesProofs.
+Require Import OV.Builder.Naming OV.Builder.NamingProofs OV.Builder.Trace OV.Builder.TraceProofs.
 Import ListNotations.
 Local Open Scope string_scope.
 
@@ -93,3 +97,82 @@ Theorem C18_nested_unattached_list_refuted :
   names_match cfg_fixed w_nested_unattached = true.
 Proof. exact nested_unattached_list_refuted. Qed.
 Print Assumptions C18_nested_unattached_list_refuted.
+
+(* ======================================================================================= Model B *)
+(* "all value and node names are unique": a default value name determines the node counter it was
+   generated from (and the output index), for every scope stack and every operator / function name made
+   of letters; a node name determines its counter for every scope and operator name. *)
+Theorem C18_value_name_single_determines_counter : forall st1 op1 c1 st2 op2 c2,
+  plain_op op1 = true -> plain_op op2 = true -> vname1 st1 op1 c1 = vname1 st2 op2 c2 -> c1 = c2.
+Proof. exact vname1_inj. Qed.
+Print Assumptions C18_value_name_single_determines_counter.
+
+Theorem C18_value_name_multi_determines_counter_and_index : forall st1 op1 c1 i1 st2 op2 c2 i2,
+  plain_op op1 = true -> plain_op op2 = true ->
+  vnameN st1 op1 c1 i1 = vnameN st2 op2 c2 i2 -> c1 = c2 /\ i1 = i2.
+Proof. exact vnameN_inj. Qed.
+Print Assumptions C18_value_name_multi_determines_counter_and_index.
+
+Theorem C18_value_name_single_vs_multi_distinct : forall st1 op1 c1 st2 op2 c2 i2,
+  plain_op op1 = true -> plain_op op2 = true -> vname1 st1 op1 c1 <> vnameN st2 op2 c2 i2.
+Proof. exact vname1_vnameN_neq. Qed.
+Print Assumptions C18_value_name_single_vs_multi_distinct.
+
+Theorem C18_node_name_determines_counter : forall st1 op1 c1 st2 op2 c2,
+  node_name st1 op1 c1 = node_name st2 op2 c2 -> c1 = c2.
+Proof. exact node_name_inj. Qed.
+Print Assumptions C18_node_name_determines_counter.
+
+(* names allocated at pairwise different counters are pairwise different *)
+Theorem C18_names_unique_allocs : forall l,
+  Forall (fun a => plain_op (a_op a) = true) l -> NoDup (map a_count l) -> NoDup (flat_map alloc_names l).
+Proof. exact names_unique_allocs. Qed.
+Print Assumptions C18_names_unique_allocs.
+
+(* names_unique_one_graph, on what `build` produces: any straight-line trace with default output names,
+   under either counter behaviour.  Not covered: explicit _outputs names (the caller's responsibility),
+   names produced by call_inline (observed, not modelled). *)
+Theorem C18_names_unique_one_graph : forall cf ins tr,
+  straight tr = true -> forallb default_plain_call tr = true ->
+  NoDup (flat_map n_outs (snd (build_state cf ins tr))).
+Proof. exact names_unique_one_graph. Qed.
+Print Assumptions C18_names_unique_one_graph.
+
+(* names_unique_across_subgraphs is false on the pinned tree: witness replayed on the real code *)
+Theorem C18_names_unique_across_subgraphs_refuted :
+  let g := build bcfg_pinned ["x"; "c"] w_subgraph_trace [4] in
+  In "v_Add_0" (flat_map n_outs (g_nodes g)) /\ In "v_Add_0" (sub_defs g) /\ wf_graphb g = false /\
+  wf_graphb (build bcfg_fixed ["x"; "c"] w_subgraph_trace [4]) = true.
+Proof. exact names_unique_across_subgraphs_refuted. Qed.
+Print Assumptions C18_names_unique_across_subgraphs_refuted.
+
+(* ======================================================================================= Model C *)
+(* "computes exactly the sequence of operator calls that was traced": for every straight-line trace
+   (operators and function calls as abstract kernels `sem`; literal operands through the constant cache;
+   omitted optional inputs; default or explicit output names; any scopes), evaluating the built graph
+   with the shared graph evaluator = reading the trace directly, including failure.
+   Hypotheses: value ids exist when used; value and initializer names pairwise distinct (for default
+   names: C18_names_unique_one_graph); literals that share a cache key denote the same tensor (C12).
+   Not covered by this theorem: subgraph bodies (If/Loop/Scan), operands that need a CastLike node,
+   call_inline (tie: correspondence + onnxruntime-vs-NumPy oracle only). *)
+Theorem C18_build_computes_trace :
+  forall V sem truth trip of_nat of_bool lim lit_val cf fuel ins tr outs args,
+    straight tr = true ->
+    ids_ok (List.length ins) tr = true ->
+    let sf := fst (build_state cf ins tr) in
+    forallb (fun i => Nat.ltb i (List.length (b_names sf))) outs = true ->
+    NoDup (b_names sf ++ cache_names (b_cache sf)) ->
+    Forall (lit_ok V lit_val (b_cache sf)) (flat_map call_lits tr) ->
+    List.length args = List.length ins ->
+    eval_graph V sem truth trip of_nat of_bool lim (S fuel) (init_env V lit_val (b_cache sf)) (build cf ins tr outs) args =
+    replay V sem lit_val tr args outs.
+Proof. exact build_computes_trace. Qed.
+Print Assumptions C18_build_computes_trace.
+
+Example C18_build_computes_trace_hypotheses_satisfiable :
+  forall V sem truth trip of_nat of_bool lim lit_val cf fuel a b,
+  eval_graph V sem truth trip of_nat of_bool lim (S fuel)
+             (init_env V lit_val (b_cache (fst (build_state cf ["x"; "y"] ex_trace))))
+             (build cf ["x"; "y"] ex_trace [6; 5]) [a; b] =
+  replay V sem lit_val ex_trace [a; b] [6; 5].
+Proof. exact ex_trace_computes. Qed.
